@@ -1,5 +1,7 @@
 (** C22 — refutation witnesses (each one is reproduced on the Go code by the
-    harness streams named witness-... ) and non-vacuity examples. *)
+    harness streams named witness-... ), the positive witness of the repaired
+    wrapper check, and non-vacuity examples.  The last field of a transaction
+    is the identity of its Signature message. *)
 From Coq Require Import List ZArith NArith Bool Lia.
 From C33 Require Import Lib.Harness C22.Model C22.Spec C22.Proofs.
 Import ListNotations.
@@ -14,17 +16,22 @@ Proof. intros. split; simpl; lia. Qed.
 
 (** a well-formed transaction of [sender] *)
 Definition wtx (id sender : N) (fee : Z) : txf :=
-  mkTx id sender true true true false false 0 false fee 130 true false 7 true.
+  mkTx id sender true true true false false 0 false fee 130 true false 7 true (100 + id).
 
 (** 1. forwarded on a parachain node: expired (Expire = 10 <= height+1), recipient blacklisted, fee 0 *)
 Definition w_fwd : sub :=
-  mkSub (mkTx 1 0 true true true true false 10 false 0 125 true false 2 true) Plain true.
+  mkSub (mkTx 1 0 true true true true false 10 false 0 125 true false 2 true 101) Plain true.
 
-(** 2. group of two of sender 0; the wrapper carries sender 1's public key *)
-Definition w_head := mkTx 1 0 true true true false false 0 false 200000 140 true false 3 true.
-Definition w_mem (e : Z) (he : bool) := mkTx 2 0 true true true false false e he 0 140 true false 4 true.
+(** 2. group of two of sender 0; the wrapper carries sender 1's public key
+    (finding 2, fixed: the pool now refuses it, see [wrapper_witness_rejected]) *)
+Definition w_head := mkTx 1 0 true true true false false 0 false 200000 140 true false 3 true 101.
+Definition w_mem (e : Z) (he : bool) := mkTx 2 0 true true true false false e he 0 140 true false 4 true 102.
 Definition w_wrap : sub :=
-  mkSub (mkTx 1 1 true false true false false 0 false 200000 420 true false 3 true)
+  mkSub (mkTx 1 1 true false true false false 0 false 200000 420 true false 3 true 199)
+        (Group [w_head; w_mem 0 false] true) false.
+(** the same group as Transactions.Tx() builds it *)
+Definition w_wrap_honest : sub :=
+  mkSub (mkTx 1 0 true true true false false 0 false 200000 420 true false 3 true 101)
         (Group [w_head; w_mem 0 false] true) false.
 
 (** 3. negative fee under a zero minimum rate *)
@@ -32,73 +39,73 @@ Definition w_neg : sub := mkSub (wtx 1 0 (-1000000)) Plain false.
 
 (** 4. group whose header hash parses as an empty group; member 2 expired at height 6 *)
 Definition w_hdr : sub :=
-  mkSub (mkTx 1 0 true true true false false 0 false 200000 420 true false 3 true)
-        (Group [mkTx 1 0 true true true false false 0 true 200000 140 true false 3 true; w_mem 6 true] true) false.
+  mkSub (mkTx 1 0 true true true false false 0 false 200000 420 true false 3 true 101)
+        (Group [mkTx 1 0 true true true false false 0 true 200000 140 true false 3 true 101; w_mem 6 true] true) false.
 
-Lemma refuted_forward : ~ accepted_sound (fun c s => g_wrap s && g_fee c s && g_hdr s).
+Lemma refuted_forward : ~ accepted_sound (fun c s => g_fee c s && g_hdr s).
 Proof.
   intro H.
-  specialize (H (wcfg true 100000 3) [] w_fwd [s_outer w_fwd] (wcfg_ok true 100000 3 ltac:(lia)) eq_refl eq_refl).
+  specialize (H (wcfg true 100000 3) [] w_fwd [s_outer w_fwd] (wcfg_ok true 100000 3 ltac:(lia)) eq_refl eq_refl eq_refl).
   vm_compute in H. discriminate.
 Qed.
 
-Lemma refuted_wrapper : ~ accepted_sound (fun c s => g_fwd s && g_fee c s && g_hdr s).
+(** the former witness of finding 2: the group with the foreign wrapper is refused, the pool
+    stays empty and the other account's own transaction is admitted; the honestly built
+    wrapper of the same group is admitted and is acceptable *)
+Lemma wrapper_witness_rejected :
+  let c := wcfg false 100000 1 in
+  pipeline c [] (STx w_wrap) = (R_MALFORMED, [])
+  /\ pipeline c [] (STx (mkSub (wtx 5 1 100000) Plain false)) = (R_OK, [wtx 5 1 100000])
+  /\ pipeline c [] (STx w_wrap_honest) = (R_OK, [s_outer w_wrap_honest])
+  /\ facts_consistent w_wrap = true /\ facts_consistent w_wrap_honest = true
+  /\ acceptable c [] w_wrap = false /\ acceptable c [] w_wrap_honest = true.
+Proof. repeat split; reflexivity. Qed.
+
+Lemma refuted_negfee : ~ accepted_sound (fun c s => g_fwd s && g_hdr s).
 Proof.
   intro H.
-  specialize (H (wcfg false 100000 1) [] w_wrap [s_outer w_wrap] (wcfg_ok false 100000 1 ltac:(lia)) eq_refl eq_refl).
+  specialize (H (wcfg false 0 3) [] w_neg [s_outer w_neg] (wcfg_ok false 0 3 ltac:(lia)) eq_refl eq_refl eq_refl).
   vm_compute in H. discriminate.
 Qed.
 
-(** ... and the victim's own transaction is then refused *)
-Lemma wrapper_blocks_victim :
-  pipeline (wcfg false 100000 1) [s_outer w_wrap] (STx (mkSub (wtx 5 1 100000) Plain false))
-  = (R_MANYTX, [s_outer w_wrap]).
-Proof. reflexivity. Qed.
-
-Lemma refuted_negfee : ~ accepted_sound (fun c s => g_fwd s && g_wrap s && g_hdr s).
+Lemma refuted_hdrempty : ~ accepted_sound (fun c s => g_fwd s && g_fee c s).
 Proof.
   intro H.
-  specialize (H (wcfg false 0 3) [] w_neg [s_outer w_neg] (wcfg_ok false 0 3 ltac:(lia)) eq_refl eq_refl).
-  vm_compute in H. discriminate.
-Qed.
-
-Lemma refuted_hdrempty : ~ accepted_sound (fun c s => g_fwd s && g_wrap s && g_fee c s).
-Proof.
-  intro H.
-  specialize (H (wcfg false 100000 3) [] w_hdr [s_outer w_hdr] (wcfg_ok false 100000 3 ltac:(lia)) eq_refl eq_refl).
+  specialize (H (wcfg false 100000 3) [] w_hdr [s_outer w_hdr] (wcfg_ok false 100000 3 ltac:(lia)) eq_refl eq_refl eq_refl).
   vm_compute in H. discriminate.
 Qed.
 
 Definition C22_accepted_implies_acceptable_full : Prop :=
-  forall c p s p', cfg_ok c -> pipeline c p (STx s) = (R_OK, p') -> acceptable c p s = true.
+  forall c p s p', cfg_ok c -> facts_consistent s = true -> pipeline c p (STx s) = (R_OK, p') ->
+                   acceptable c p s = true.
 
 Lemma refuted_full : ~ C22_accepted_implies_acceptable_full.
 Proof.
-  intro H. apply refuted_forward. intros c p s p' Hc Hp _. exact (H c p s p' Hc Hp).
+  intro H. apply refuted_forward. intros c p s p' Hc Hfc Hp _. exact (H c p s p' Hc Hfc Hp).
 Qed.
 
 (** non-vacuity: a group of three enters a non-empty pool with all guards satisfied *)
 Definition ex_group : sub :=
-  mkSub (mkTx 10 0 true true true false false 0 false 300000 600 true false 3 true)
-        (Group [mkTx 10 0 true true true false false 0 false 300000 140 true false 3 true;
-                mkTx 11 1 true true true false false 12 false 0 140 true false 4 true;
-                mkTx 12 2 true true true false false 1700000060 false 0 140 true false 5 true] true) false.
+  mkSub (mkTx 10 0 true true true false false 0 false 300000 600 true false 3 true 110)
+        (Group [mkTx 10 0 true true true false false 0 false 300000 140 true false 3 true 110;
+                mkTx 11 1 true true true false false 12 false 0 140 true false 4 true 111;
+                mkTx 12 2 true true true false false 1700000060 false 0 140 true false 5 true 112] true) false.
 
 Lemma guards_satisfiable :
-  exists c p s p', cfg_ok c /\ p <> [] /\ pipeline c p (STx s) = (R_OK, p') /\ all_guards c s = true
-                   /\ acceptable c p s = true /\ length (members s) = 3%nat.
+  exists c p s p', cfg_ok c /\ facts_consistent s = true /\ p <> [] /\ pipeline c p (STx s) = (R_OK, p')
+                   /\ all_guards c s = true /\ acceptable c p s = true /\ length (members s) = 3%nat.
 Proof.
   exists (wcfg false 100000 3), [wtx 1 0 100000], ex_group, [wtx 1 0 100000; s_outer ex_group].
-  split; [apply wcfg_ok; lia|]. split; [discriminate|]. repeat split; reflexivity.
+  split; [apply wcfg_ok; lia|]. split; [reflexivity|]. split; [discriminate|]. repeat split; reflexivity.
 Qed.
 
 (** the same group is refused as soon as one member violates one clause *)
 Lemma member_violation_rejected :
-  let bad (t : txf) := mkSub (s_outer ex_group) (Group [mkTx 10 0 true true true false false 0 false 300000 140 true false 3 true; t; w_mem 0 false] true) false in
+  let bad (t : txf) := mkSub (s_outer ex_group) (Group [mkTx 10 0 true true true false false 0 false 300000 140 true false 3 true 110; t; w_mem 0 false] true) false in
   let c := wcfg false 100000 3 in
-  fst (pipeline c [] (STx (bad (mkTx 11 1 true false true false false 0 false 0 140 true false 4 true)))) = R_SIGN
-  /\ fst (pipeline c [] (STx (bad (mkTx 11 1 true true false false false 0 false 0 140 true false 4 true)))) = R_ADDR
-  /\ fst (pipeline c [] (STx (bad (mkTx 11 1 true true true true false 0 false 0 140 true false 4 true)))) = R_BLOCKED
-  /\ fst (pipeline c [] (STx (bad (mkTx 11 1 true true true false true 0 false 0 140 true false 4 true)))) = R_DUP
-  /\ fst (pipeline c [] (STx (bad (mkTx 11 1 true true true false false 11 false 0 140 true false 4 true)))) = R_EXPIRED.
+  fst (pipeline c [] (STx (bad (mkTx 11 1 true false true false false 0 false 0 140 true false 4 true 111)))) = R_SIGN
+  /\ fst (pipeline c [] (STx (bad (mkTx 11 1 true true false false false 0 false 0 140 true false 4 true 111)))) = R_ADDR
+  /\ fst (pipeline c [] (STx (bad (mkTx 11 1 true true true true false 0 false 0 140 true false 4 true 111)))) = R_BLOCKED
+  /\ fst (pipeline c [] (STx (bad (mkTx 11 1 true true true false true 0 false 0 140 true false 4 true 111)))) = R_DUP
+  /\ fst (pipeline c [] (STx (bad (mkTx 11 1 true true true false false 11 false 0 140 true false 4 true 111)))) = R_EXPIRED.
 Proof. repeat split; reflexivity. Qed.
